@@ -107,14 +107,17 @@ pub fn gen_graph(r: &mut Rng, thorough: bool) -> Graph {
     let large = FORCE_LARGE.swap(false, std::sync::atomic::Ordering::Relaxed) || r.chance(1, if thorough { 60 } else { 150 });
     let n = if !gen::small() && large { r.range(257, nodes::MAX_NODES as u64) as usize } else { n };
     let with_ph = n >= 2 && r.chance(1, 3);
-    let phantom = if with_ph { Some(n - 1) } else { None };
+    // one or (n >= 4, half of the time) two different real std identities at the end of the node list
+    let two = with_ph && n >= 4 && r.chance(1, 2);
+    let phantom = if with_ph { Some(if two { n - 2 } else { n - 1 }) } else { None };
+    let kind0 = if r.chance(1, 2) { 0 } else { 1 + r.below(3) as usize };
+    let kind1 = (kind0 + 1 + r.below(3) as usize) % 4;
     let local = r.chance(1, 2);
     let mut specs = vec![];
     for k in 0..n {
-        if Some(k) == phantom {
-            // the real PhantomData identity half of the time, else `()`, `str` or `u8`
-            let kind = if r.chance(1, 2) { 0 } else { 1 + r.below(3) as usize };
-            specs.push(nodes::real_spec(kind));
+        if phantom.map_or(false, |p| k >= p) {
+            // the real PhantomData identity half of the time, else `()`, `str` or `u8`; a second one is of another kind
+            specs.push(nodes::real_spec(if Some(k) == phantom { kind0 } else { kind1 }));
             continue;
         }
         let kk = k as u64;
